@@ -78,6 +78,7 @@ ObsInit ==
    fenced |-> [c \in OC |-> FALSE],          \* last join/sync answer was UNKNOWN_MEMBER_ID
    idfree |-> [c \in OC |-> FALSE],          \* an UNKNOWN_MEMBER_ID / ILLEGAL_GENERATION answer reached the client since its last
                                              \* successful join (the code may drop the member id), or it left the group
+   closeret |-> [c \in OC |-> FALSE],        \* Close of the client's group has returned
    hbstop |-> [c \in OC |-> FALSE],          \* a heartbeat of this call got an answer other than OK (the loop may have ended by it)
    connlost |-> [c \in OC |-> FALSE],        \* the coordinator dropped a connection of the client since its last successful join
                                              \* (its next request may die on the dead connection before it is seen)
@@ -181,7 +182,8 @@ IsStale(e) == "stale" \in DOMAIN e /\ e.stale
 \* Close returned: a member that holds an id the coordinator issued (and was not told to drop it) has sent LeaveGroup
 OCloseRet(o, e) ==
   LET c == e.c IN
-  [o EXCEPT !.bad = W(o.cur[c] # NoPair /\ ~o.idfree[c] /\ ~o.left[c] /\ ~o.cdown /\ ~o.connlost[c], "leave_on_close")]
+  [o EXCEPT !.closeret[c] = TRUE,
+            !.bad = W(o.cur[c] # NoPair /\ ~o.idfree[c] /\ ~o.left[c] /\ ~o.cdown /\ ~o.connlost[c], "leave_on_close")]
 
 OJoinReq(o, e) ==
   LET c == e.c IN
@@ -193,7 +195,10 @@ OJoinReq(o, e) ==
 
 OJoinResp(o, e) ==
   LET c == e.c IN
-  IF e.err = "ok" THEN [o EXCEPT !.cur[c] = <<e.mid, e.gen>>, !.ids[c] = @ \cup {e.mid}, !.idfree[c] = FALSE, !.left[c] = FALSE, !.connlost[c] = FALSE, !.bad = {}]
+  \* (Close waits for the running Consume - it takes the lock Consume holds - before it decides whether to send LeaveGroup:
+  \* an id issued after Close has returned belongs to a member nobody will ever make leave)
+  IF e.err = "ok" THEN [o EXCEPT !.cur[c] = <<e.mid, e.gen>>, !.ids[c] = @ \cup {e.mid}, !.idfree[c] = FALSE, !.left[c] = FALSE, !.connlost[c] = FALSE,
+                                 !.bad = W(o.closeret[c], "leave_on_close")]
   ELSE IF e.err = "unknown" THEN [o EXCEPT !.fenced[c] = TRUE, !.idfree[c] = TRUE, !.bad = {}]
   ELSE IF e.err = "illegal" THEN [o EXCEPT !.idfree[c] = TRUE, !.bad = {}]
   ELSE [o EXCEPT !.bad = {}]
